@@ -338,19 +338,23 @@ void capture(const sdkmet::ResourceMetrics &rm, Collection &c)
 class PullReader final : public sdkmet::MetricReader
 {
 public:
-  explicit PullReader(int temporality) : temporality_(temporality) {}
+  explicit PullReader(int temporality, bool split = false) : temporality_(temporality), split_(split) {}
   sdkmet::AggregationTemporality GetAggregationTemporality(
-      sdkmet::InstrumentType) const noexcept override
+      sdkmet::InstrumentType type) const noexcept override
   {
     hz::HarnessCode hc_;
-    return temporality_ ? sdkmet::AggregationTemporality::kCumulative
-                        : sdkmet::AggregationTemporality::kDelta;
+    int t = temporality_;
+    if (split_ && type == sdkmet::InstrumentType::kUpDownCounter)
+      t = !t;
+    return t ? sdkmet::AggregationTemporality::kCumulative
+             : sdkmet::AggregationTemporality::kDelta;
   }
 
 private:
   bool OnForceFlush(std::chrono::microseconds) noexcept override { hz::HarnessCode hc_; return true; }
   bool OnShutDown(std::chrono::microseconds) noexcept override { hz::HarnessCode hc_; return true; }
   int temporality_;
+  bool split_ = false;
 };
 
 // Stub exporter of the real PeriodicExportingMetricReader stratum: every Export is one
@@ -884,7 +888,7 @@ void body(const Case &c)
             o));
       }
       else
-        rd.reset(new PullReader((int)c.knob(fmt("temp%d", r).c_str(), 0)));
+        rd.reset(new PullReader((int)c.knob(fmt("temp%d", r).c_str(), 0), c.knob("temp_split", 0) != 0));
       w.readers.push_back(rd);
       w.prov->AddMetricReader(rd);
     }
@@ -987,7 +991,12 @@ void check(const Case &c, const vsim::RunResult &)
 
   for (int r = 0; r < nread; ++r)
   {
-    int temp = (int)c.knob(fmt("temp%d", r).c_str(), 0);  // 0 delta 1 cumulative
+    int temp_base = (int)c.knob(fmt("temp%d", r).c_str(), 0);  // 0 delta 1 cumulative
+    // temp_split: a pull reader's temporality depends on the instrument type (the up-down
+    // counters get the other one, as with the OTLP "delta" preference); not for the periodic
+    // reader's exporter or the direct collectors
+    bool split = c.knob("temp_split", 0) != 0 && c.knob("direct_limit", 0) == 0 &&
+                 !(r == 0 && c.knob("periodic", 0));
     std::vector<const Collection *> cols;
     for (auto &col : w.collections)
       if (col.reader == r)
@@ -997,6 +1006,7 @@ void check(const Case &c, const vsim::RunResult &)
     for (const Stream &st : streams)
     {
       int kind = (int)c.knob(fmt("itype%d", st.instr).c_str(), 0);
+      int temp = temp_base ^ ((split && (kind == I_UPDOWN_LONG || kind == I_UPDOWN_DOUBLE)) ? 1 : 0);
       std::vector<const Meas *> ms;
       for (auto &m : w.meas)
         if (m.instr == st.instr)
@@ -1453,6 +1463,7 @@ void generate(const std::string &prop, Rng &wl, Rng &fl, Case &c)
   c.set("nreaders", nread);
   for (int r = 0; r < nread; ++r)
     c.set(fmt("temp%d", r).c_str(), (int64_t)wl.below(2));
+  c.set("temp_split", wl.chance(0.2));
   std::string stratum = "api";
   bool direct         = false;
   // direct SyncMetricStorage with an explicit small cardinality limit: C08's limit clauses, and
